@@ -5,7 +5,9 @@ _E1 = ("Seeded exploration: every run executes the real d-engine node code of a 
        "while the run proceeds and over the recorded history. A clean batch is evidence for the explored seeds only. ")
 _N1 = ("Trusted base: SimTransport (replica of the gRPC transport contract), SimStorageEngine, MemSm, the harness's replica of "
        "NodeBuilder wiring, vendored tokio with inline blocking + task groups, libc clock/getrandom seams. One global virtual "
-       "clock; interleavings at await points and seam yields.")
+       "clock; interleavings at await points and seam yields. Non-graceful crashes take down at most a minority of the voters "
+       "at any time (the properties' quantifier); the sole voter of a 1-voter cluster is restarted gracefully, except in the "
+       "C02 batches (DESIGN.md 8.1 FA2).")
 
 TEXT = {
     "C01": {"level": _E1 + "Oracle: leader ledger (AppendEntries emitted with term T, Leader role reports) has at most one node per "
